@@ -111,7 +111,7 @@ theorem no_lost_write (E S : WS) (W St : Root) (dolt : Bool) (ws : WS)
         · refine ⟨deltaCells er wr sr, by simp [h1, h2, h3], ?_⟩
           intro c; exact deltaCells_getElem? er wr sr c hl1 hl2
 
-example : doCommit ⟨[(1, [some (.int 1), none])], [], []⟩ ⟨[(1, [some (.int 0), none])], [], []⟩
+example : doCommit ⟨[(1, [some (.int 1), none])], [], [], false, false⟩ ⟨[(1, [some (.int 0), none])], [], [], false, false⟩
     [(1, [some (.int 0), some (.str "y")])] [] false ≠ none := by decide
 
 /-- `conflict_iff`: a commit is rejected for data reasons exactly when some key is in conflict in
@@ -168,7 +168,7 @@ theorem conflict_iff (E S : WS) (W St : Root) (dolt : Bool) :
     unfold mergedWorking
     simp [heq, hne']
 
-example : doCommit ⟨[(1, [some (.int 1)])], [], []⟩ ⟨[(1, [some (.int 0)])], [], []⟩ [(1, [some (.int 2)])] [] false = none := by decide
+example : doCommit ⟨[(1, [some (.int 1)])], [], [], false, false⟩ ⟨[(1, [some (.int 0)])], [], [], false, false⟩ [(1, [some (.int 2)])] [] false = none := by decide
 example : KeyConflict (some [some (.int 1)]) (some [some (.int 2)]) (some [some (.int 0)]) := by
   simp [KeyConflict, rowsConflict, cellConflict]
 
@@ -285,22 +285,22 @@ def dcommitHeadContainsOwnWrites_full : Prop :=
 A stages/commits 1, B's `dolt_commit -A` succeeds with HEAD = 1) -/
 theorem dcommitHeadContainsOwnWrites_refuted : ¬ dcommitHeadContainsOwnWrites_full := by
   intro h
-  have := h ⟨[(1, [some (.int 1)])], [(1, [some (.int 1)])], [(1, [some (.int 1)])]⟩
-    ⟨[(1, [some (.int 1)])], [(1, [some (.int 0)])], [(1, [some (.int 0)])]⟩
+  have := h ⟨[(1, [some (.int 1)])], [(1, [some (.int 1)])], [(1, [some (.int 1)])], false, false⟩
+    ⟨[(1, [some (.int 1)])], [(1, [some (.int 0)])], [(1, [some (.int 0)])], false, false⟩
     [(1, [some (.int 2)])] _ rfl 1 (by decide)
   revert this; decide
 
 /-- what does hold: when the staged root did not move since the transaction began and HEAD did not
 move, the commit is made from the transaction's own root -/
 theorem dcommitHeadContainsOwnWrites_partial (E S : WS) (W : Root) (ws : WS)
-    (hst : rootEq E.staged W = true ∨ isFF E S = true)
-    (hhd : rootEq E.head S.head = true)
-    (h : doCommit E S W W true = some ws) : ws.head = W := by
+    (hst : (rootEq E.staged W && E.sArt == false) = true ∨ isFF E S = true)
+    (hhd : (rootEq E.head S.head && E.hArt == S.hArt) = true)
+    (h : doCommit E S W W true = some ws) : ws.head = W ∧ ws.hArt = false := by
   unfold doCommit at h
   simp only [hhd, if_true] at h
   by_cases hff : isFF E S = true
   · simp only [hff, if_true, Bool.false_eq_true, if_false] at h
-    injection h with h; subst h; rfl
+    injection h with h; subst h; exact ⟨rfl, rfl⟩
   · simp only [hff, if_false] at h
     cases hc : (mergedWorking E S W).2 with
     | true => simp [hc] at h
@@ -308,7 +308,8 @@ theorem dcommitHeadContainsOwnWrites_partial (E S : WS) (W : Root) (ws : WS)
       simp only [hc, Bool.false_eq_true, if_false] at h
       injection h with h; subst h
       rcases hst with hst | hst
-      · simp [mergedStaged, hst]
+      · have hst' : rootEq E.staged W = true ∧ E.sArt = false := by simpa using hst
+        simp [mergedStaged, hst']
       · exact absurd hst hff
 
 end DoltVerif.C23
